@@ -6,6 +6,8 @@
 2. --mutants: the property-breaking edits of `MUTANTS = [(file, old, new, expected obligation substring)]` are applied to a
    scratch copy of src/ (mktemp -d, VERIF_REPO/VERIF_OUT redirected, directory removed afterwards) and `./check` must
    exit 1 with a confirmed VIOLATION line naming the expected obligation.
+3. --mutants also applies `HARMLESS = [(label, diff)]` (must stay exit 0) and `SEEDED = [(label, diff, obligation)]` (must exit 1, confirmed)
+   patches of a property part.
 Exit 0 iff every control behaved as expected.
 """
 import sys, os, importlib, subprocess, tempfile, shutil, json, glob, time
@@ -66,6 +68,43 @@ def mutants(pid):
     return ok
 
 
+def patches(pid):
+    """HARMLESS = [(label, diff)]: property-preserving refactorings, `./check` must exit 0 on the patched scratch copy (no false alarm);
+    SEEDED = [(label, diff, obligation substring)]: must exit 1 with a confirmed VIOLATION line naming the obligation.
+    Diffs are relative to /verif and applied with `patch -p1`."""
+    mod = importlib.import_module("props.cparts.%s" % pid)
+    ok = True
+    todo = [(l, d, None) for (l, d) in getattr(mod, "HARMLESS", [])] + list(getattr(mod, "SEEDED", []))
+    for label, diff, expect in todo:
+        tmp = tempfile.mkdtemp(prefix="verif-cvc-mut-")
+        try:
+            subprocess.run(["rsync", "-a", "--exclude", ".git", os.path.join(core.REPO, "src"), tmp + "/"], check=True)
+            pr = subprocess.run(["patch", "-p1", "-s", "-i", os.path.join(core.VERIF, diff)], cwd=tmp, capture_output=True, text=True)
+            if pr.returncode != 0:
+                print("patch %s: %s does not apply: %s" % (pid, diff, (pr.stdout + pr.stderr)[-300:]))
+                ok = False
+                continue
+            env = dict(os.environ, VERIF_REPO=tmp, VERIF_OUT=os.path.join(tmp, "out"), PYTHONPATH=core.VERIF)
+            t0 = time.time()
+            r = subprocess.run([sys.executable, "-m", "engine.cli", getattr(mod, "CHECK_ID", "cparts." + pid)], cwd=core.VERIF, env=env,
+                               capture_output=True, text=True)
+            if expect is None:
+                good = r.returncode == 0
+                print("harmless %-6s %s: exit=%d  %s  %.0fs" % (pid, label, r.returncode, "STAYS GREEN" if good else "FALSE ALARM", time.time() - t0))
+            else:
+                viol = [l for l in r.stdout.splitlines() if l.startswith("VIOLATION") and "no-failing-input-found" not in l]
+                hit = [l for l in viol if expect in l]
+                good = r.returncode == 1 and bool(hit)
+                print("seeded %-6s %s: exit=%d, %d confirmed VIOLATION lines, %d on %r  %s  %.0fs"
+                      % (pid, label, r.returncode, len(viol), len(hit), expect, "CAUGHT" if good else "MISSED/UNCONFIRMED", time.time() - t0))
+            ok = ok and good
+            if not good:
+                print(r.stdout[-1500:], r.stderr[-1500:])
+        finally:
+            shutil.rmtree(tmp, ignore_errors=True)
+    return ok
+
+
 def fuzz(pid, seed):
     """positive control of the replay machinery: on the unchanged tree the real code agrees with the oracle on seeded
     random inputs (no false alarm from harness, oracle or witness plumbing)"""
@@ -99,6 +138,7 @@ def main(argv):
             ok = fuzz(pid, int(os.environ.get("VERIF_SEED", "0") or 0)) and ok
         if "--mutants" in argv:
             ok = mutants(pid) and ok
+            ok = patches(pid) and ok
     print("selftest:", "ok" if ok else "FAILED")
     return 0 if ok else 1
 
